@@ -345,6 +345,8 @@ type cstep[M modifier[M]] struct {
 	do func(m M, t testing.TB) (M, []expOp)
 	// elec, if non-nil, is the election id set by this step
 	elec *spb.Uint128
+	// onClient: a call on the client itself instead of on the Modify() wrapper (queues nothing)
+	onClient func(c *fluent.GRIBIClient)
 }
 
 type expOp struct {
@@ -395,6 +397,11 @@ func clientSteps[M modifier[M]]() []cstep[M] {
 		{name: "UpdateElectionID(30,1)", elec: &spb.Uint128{Low: 30, High: 1}, do: func(m M, t testing.TB) (M, []expOp) {
 			m = m.UpdateElectionID(t, 30, 1)
 			return m, nil
+		}},
+		// another request builder of the same client is used in between (built, not sent): a Flush that names its
+		// own election id. It is not one of the calls that set the client's id: later operations keep their stamp.
+		{name: "Flush().WithElectionID(88,0).WithAllNetworkInstances() [built only]", onClient: func(c *fluent.GRIBIClient) {
+			_ = c.Flush().WithElectionID(88, 0).WithAllNetworkInstances()
 		}},
 	}
 }
@@ -449,7 +456,14 @@ func runClientProgram[M modifier[M]](elected bool, mode int, prog []int, mk func
 		if mode == 0 {
 			m = mk(c)
 		}
-		ret, exp := steps[i].do(m, t)
+		var ret M
+		var exp []expOp
+		if steps[i].onClient != nil {
+			steps[i].onClient(c)
+			ret = m
+		} else {
+			ret, exp = steps[i].do(m, t)
+		}
 		if mode == 2 {
 			held = ret
 		}
